@@ -336,6 +336,15 @@ def s6c(ctx, rep):
     okw = bool(wr) and all(through(n, wr) for n in sta)
     rep.put(okw, "S6", "must_follow", "SynchronousHyperbandScheduler._suggest: a new trial's id is written into its slot", f, None, "",
             "the slot of a new trial keeps trial id None: its result is stored without an id and the trial can never be promoted")
+    # ... and only then: a slot that is reported as failed because no configuration could be suggested still names no trial
+    fails = [n for n, c in call_nodes(ctx, f, lambda c: fn_name(c) == "_report_as_failed")]
+    made = set(res + sta)       # nodes that bind the suggestion: a path through one of them does not end in the no-suggestion branch
+    oknf = bool(wr) and bool(fails) and all(
+        cfg.path([cfg.entry], w_, deleted=made - {w_}, skip_labels=("exc",)) is None or      # written after the suggestion exists
+        all(cfg.path([w_], f_, deleted=made - {w_}, skip_labels=("exc",)) is None for f_ in fails) for w_ in wr)
+    rep.put(oknf, "S6", "must_precede", "SynchronousHyperbandScheduler._suggest: a slot reported as failed for want of a configuration names no trial", f, None, "",
+            "the trial id is written into the slot before it is known that the trial starts: when the searcher has no configuration the rung records "
+            "(trial id, NaN) for a trial that never ran - the caller reuses the id, and a rung with too few valid results promotes a trial that does not exist")
     rec = {n.id for n in cfg.nodes if n.kind == "stmt" and isinstance(n.ast, ast.Assign) and any(
         isinstance(t, ast.Subscript) and U(t.value) == "self._trial_to_config" for t in n.ast.targets)}
     okcfg = bool(rec) and all(through(n, rec) for n in sta)
